@@ -11,6 +11,10 @@ use vlib::report::{catch, Acc, SubReport, Violation};
 const TOKENS: [&str; 13] = ["cap_chown", "CAP_KILL", "all", "bogus", ",", "=", "+", "-", "e", "i", "p", "x", " "];
 
 fn check_text(s: &str, idx: u64, acc: &mut Acc) {
+    check_text_in("tokens", s, idx, acc)
+}
+
+fn check_text_in(sub: &str, s: &str, idx: u64, acc: &mut Acc) {
     acc.evals += 1;
     let case = || json!({"text": s});
     let r = catch(|| {
@@ -28,23 +32,23 @@ fn check_text(s: &str, idx: u64, acc: &mut Acc) {
     });
     let (a, b, c, d, d_kind) = match r {
         Ok(x) => x,
-        Err(p) => return acc.viol(panic_violation("tokens", &p, case())),
+        Err(p) => return acc.viol(panic_violation(sub, &p, case())),
     };
     let want = accepts(s);
     let got = a.is_some();
     if got != want {
         acc.viol(
-            Violation::new("tokens", format!("{:?}: library {} it, the grammar {} it", s, if got { "accepts" } else { "rejects" }, if want { "accepts" } else { "rejects" }), case())
+            Violation::new(sub, format!("{:?}: library {} it, the grammar {} it", s, if got { "accepts" } else { "rejects" }, if want { "accepts" } else { "rejects" }), case())
                 .sig("clause", "acceptance")
                 .sig("direction", if got { "library-accepts" } else { "library-rejects" }),
         );
     }
     if b.is_some() != got || c != got || d != got || (!got && !d_kind) {
-        acc.viol(Violation::new("tokens", format!("{:?}: entry points disagree (from_str {}, new {}, validate {}, FileOptions::caps {} / right error {})", s, got, b.is_some(), c, d, d_kind), case()).sig("clause", "entry-points-agree"));
+        acc.viol(Violation::new(sub, format!("{:?}: entry points disagree (from_str {}, new {}, validate {}, FileOptions::caps {} / right error {})", s, got, b.is_some(), c, d, d_kind), case()).sig("clause", "entry-points-agree"));
     }
     if let Some(t) = &a {
         if t != s || b.as_deref() != Some(s) {
-            acc.viol(Violation::new("tokens", format!("{:?} not kept verbatim: {:?}", s, t), case()).sig("clause", "verbatim"));
+            acc.viol(Violation::new(sub, format!("{:?} not kept verbatim: {:?}", s, t), case()).sig("clause", "verbatim"));
         }
     }
     if want {
@@ -113,6 +117,86 @@ pub fn run(ctx: &Ctx) -> i32 {
     }
     let s1b = SubReport::new("characters", "A", &format!("every string of ≤ {} characters over {:?} ({} strings), plus clause pieces of length 3…1024 (every power of two ± 2) ending in a 2-, 3- or 4-byte character in each clause position: same entry points and oracle", cl, chars, nc), cacc);
 
+    // every known capability name, in three spellings, in each position of a text; and its near misses
+    let mut nacc = Acc::new();
+    {
+        let mut idx = 0u64;
+        for name in vlib::capsref::CAP_NAMES {
+            let mixed: String = name.chars().enumerate().map(|(i, c)| if i % 2 == 0 { c.to_ascii_uppercase() } else { c }).collect();
+            let misses = [name[..name.len() - 1].to_string(), format!("{}x", name), name[4..].to_string(), format!("{}_", name), name.replace('_', "-")];
+            for n in [name.to_string(), name.to_ascii_uppercase(), mixed].iter().chain(misses.iter()) {
+                for text in [format!("{}=ep", n), format!("{},cap_chown+p", n), format!("cap_chown,{}=i", n), format!("=e {}+p", n), format!("{0},{0}-e", n), format!(" {}=", n)] {
+                    check_text_in("names", &text, idx, &mut nacc);
+                    idx += 1;
+                }
+            }
+        }
+    }
+    let s1c = SubReport::new("names", "A", "each of the 41 Linux capability names in lower, upper and mixed case, and five near misses of each (last character dropped, one appended, 'cap_' removed, trailing '_', '-' for '_'), in six positions of a text (alone, first / last of a list, second clause, repeated, after a blank): same entry points and oracle", nacc);
+
+    // FileOptions::caps must judge the text alone: not the setters called before or after it
+    let mut oacc = Acc::new();
+    {
+        use rpm::{FileMode, FileOptions};
+        type B = rpm::FileOptionsBuilder;
+        let setters: Vec<(&str, Box<dyn Fn(B) -> B>)> = vec![
+            ("mode(dir)", Box::new(|b: B| b.mode(FileMode::dir(0o755)))),
+            ("mode(symlink)", Box::new(|b: B| b.mode(FileMode::symbolic_link(0o777)))),
+            ("mode(regular 0644)", Box::new(|b: B| b.mode(FileMode::regular(0o644)))),
+            ("mode(0o4755 raw)", Box::new(|b: B| b.mode(0o104755))),
+            ("mode(invalid raw)", Box::new(|b: B| b.mode(0o170000))),
+            ("symlink(target)", Box::new(|b: B| b.symlink("target"))),
+            ("user", Box::new(|b: B| b.user("u"))),
+            ("group", Box::new(|b: B| b.group("g"))),
+            ("is_doc", Box::new(|b: B| b.is_doc())),
+            ("is_config", Box::new(|b: B| b.is_config())),
+            ("is_config_noreplace", Box::new(|b: B| b.is_config_noreplace())),
+            ("is_ghost", Box::new(|b: B| b.is_ghost())),
+            ("is_license", Box::new(|b: B| b.is_license())),
+            ("is_readme", Box::new(|b: B| b.is_readme())),
+            ("caps(cap_kill=e) first", Box::new(|b: B| b.caps("cap_kill=e").expect("well-formed text"))),
+        ];
+        let texts = ["cap_chown=p", "=", "all=eip cap_kill-e", "CAP_NET_BIND_SERVICE+ep", "", "bogus=e", "cap_chown", "cap_chown==e", "+e", " cap_kill=e "];
+        for (si, (sname, set)) in setters.iter().enumerate() {
+            for (ti, t) in texts.iter().enumerate() {
+                for order in ["setter then caps", "caps then setter", "setter, caps, setter"] {
+                    oacc.evals += 1;
+                    let want = accepts(t);
+                    let case = json!({"text": t, "setter": sname, "order": order});
+                    let r = catch(|| {
+                        let b = FileOptions::new("/f");
+                        match order {
+                            "setter then caps" => set(b).caps(*t).map(|_| ()),
+                            "caps then setter" => b.caps(*t).map(|b| {
+                                let _ = set(b);
+                            }),
+                            _ => set(b).caps(*t).map(|b| {
+                                let _ = set(b);
+                            }),
+                        }
+                    });
+                    match r {
+                        Err(p) => oacc.viol(panic_violation("option-order", &p, case)),
+                        Ok(res) => {
+                            if want {
+                                oacc.nontrivial += 1;
+                            }
+                            oacc.count(if res.is_ok() { "accepted" } else { "rejected" });
+                            if res.is_ok() != want {
+                                oacc.viol(
+                                    Violation::new("option-order", format!("{:?} after/before {}: FileOptions::caps {} it, the grammar {} it", t, sname, if res.is_ok() { "accepts" } else { "rejects" }, if want { "accepts" } else { "rejects" }), case)
+                                        .sig("clause", "acceptance-depends-on-other-setters")
+                                        .rank((si * 100 + ti) as u64),
+                                );
+                            }
+                        }
+                    }
+                }
+            }
+        }
+    }
+    let s1d = SubReport::new("option-order", "A", "15 other FileOptions setters (modes of every kind, owner, flags, an earlier caps call) × 10 texts (6 the grammar accepts, 4 it rejects) × three call orders (setter before, after, around caps): the verdict of FileOptions::caps must be the text's own", oacc);
+
     // accepted text comes back verbatim from a built package's FILECAPS
     let dir = crate::ctx::run_dir().join("c19");
     let _ = std::fs::create_dir_all(&dir);
@@ -161,7 +245,7 @@ pub fn run(ctx: &Ctx) -> i32 {
     let s2 = SubReport::new("built", "A", "every grammar-accepted text of ≤ 3 (thorough 4) tokens given to FileOptions::caps, built, written, parsed: FILECAPS of the file equals the text", b);
     ctx.finish(
         "exploration",
-        vec![s1, s1b, s2],
+        vec![s1, s1b, s1c, s1d, s2],
         &["the recogniser in vlib::capsref implements the grammar of the property statement (group = operator followed by zero or more flags)", "strings longer than the token bound are not covered"],
         vec![],
     )
